@@ -65,3 +65,17 @@ func init() {
 	ops["tok"] = opTok
 	ops["bclasses"] = opBuiltinClasses
 }
+
+// namepred <builtin classes (ignored here)> | <runes>  -> the name predicates of base/t_predicate.go on an identifier token
+func opNamePred(args string) string {
+	parts := strings.Split(args, "|")
+	if len(parts) != 2 {
+		return "BAD-ARGS"
+	}
+	t := base.MakeIdentifier(string(parseRunes(parts[1])))
+	return b01(t.IsVariableIdentifier()) + b01(t.IsClassIdentifier()) + b01(t.IsConstIdentifier()) + b01(t.IsSymbolIdentifier())
+}
+
+func init() {
+	ops["namepred"] = opNamePred
+}
